@@ -1,4 +1,4 @@
-import Invoke.Lemmas.SpellCheck
+import Invoke.Lemmas.SpellSigKwargs
 import Driver.Util
 /-! Line-protocol driver for C01 (`drv_spell`).  One case per line, everything textual is encoded as decimal
     character codes separated by '.', so any token/value can be transported:
@@ -11,7 +11,18 @@ import Driver.Util
       item  = S:<flag>:<value> | E:<flag>:<value> | G:<flagchar enc>:<value> | T:<flag> | I:<noflag> |
               B:<chars> | P:<value> | O:<flag>
 
-    Output: `<parse result> # cov=<0|1> thm=<0|1>`; `cov` = the case satisfies the hypotheses of the proved theorem
+    Two optional further fields carry the SIGNATURE-level description of the same case (composition theorem
+    `parse_spelling_from_signatures`):
+
+      <sigs: decl+decl…>   decl  = <name enc>~<param;param… | _>~<optional names | _>~<iterable | _>~<incrementable | _>~<auto 0|1>
+                           param = <name enc>:<e | n | s<enc> | i<int> | b0 | b1>
+      <schain: call+call…> call  = <tname enc>[,sitem]*
+                           sitem = LS:<pn>:<v> | LE:<pn>:<v> | SS:<pn>:<v> | SE:<pn>:<v> | SG:<pn>:<v> | FL:<pn> | FS:<pn> |
+                                   NF:<pn> | B:<pn>;<pn>… | P:<pn>:<v> | BL:<pn> | BS:<pn>
+
+    Output: `<parse result> # cov=<0|1> thm=<0|1> sig=<0|1>`; `sig` = the case satisfies ALL hypotheses of the
+    composition theorem (registry = contexts `mkCtx` builds from the signatures, identifiers well-formed,
+    `sigChainOKb`, argv = rendered signature-level chain); `cov` = the case satisfies the hypotheses of the proved theorem
     (`chainOKb`, no `--` token, argv = rendered chain); `thm` = the theorem's conclusion was observed on this
     case (always 1 when cov=1 — a sanity check of the statement, not a proof step). -/
 open Inv Drv
@@ -115,25 +126,88 @@ def allOk {α} : List (Except Err α) → Except Err (List α)
     | .error e, _ => .error e
     | _, .error e => .error e
 
+def parsePyDefault (s : String) : PyDefault :=
+  if s == "e" then .empty
+  else if s == "n" then .none
+  else if s == "b1" then .bool true
+  else if s == "b0" then .bool false
+  else if s.startsWith "s" then .str (decChars (s.drop 1).toString)
+  else if s.startsWith "i" then (match (s.drop 1).toString.toInt? with | some n => .int n | none => .none)
+  else .none
+
+def parseParam (s : String) : Param :=
+  match s.splitOn ":" with
+  | [n, d] => { name := decChars n, default := parsePyDefault d }
+  | _ => { name := [], default := .none }
+
+def parseDecl (s : String) : Option TaskDecl :=
+  match s.splitOn "~" with
+  | [name, params, opt, iter, inc, auto] =>
+    some { name := decChars name,
+           params := (listEnc params ";").map parseParam,
+           opts := { optional := (listEnc opt ",").map decChars, iterable := (listEnc iter ",").map decChars,
+                     incrementable := (listEnc inc ",").map decChars, autoShort := auto == "1" } }
+  | _ => none
+
+def parseSItem (s : String) : Option SItem :=
+  match s.splitOn ":" with
+  | ["LS", pn, v] => some (.longSpaced (decChars pn) (decChars v))
+  | ["LE", pn, v] => some (.longEq (decChars pn) (decChars v))
+  | ["SS", pn, v] => some (.shortSpaced (decChars pn) (decChars v))
+  | ["SE", pn, v] => some (.shortEq (decChars pn) (decChars v))
+  | ["SG", pn, v] => match decChars v with | y :: w => some (.shortGlued (decChars pn) y w) | [] => none
+  | ["FL", pn] => some (.flagLong (decChars pn))
+  | ["FS", pn] => some (.flagShort (decChars pn))
+  | ["NF", pn] => some (.noFlag (decChars pn))
+  | ["B", pns] => match (pns.splitOn ";").map decChars with | q :: r => some (.block q r) | [] => none
+  | ["P", pn, v] => some (.pos (decChars pn) (decChars v))
+  | ["BL", pn] => some (.bareLong (decChars pn))
+  | ["BS", pn] => some (.bareShort (decChars pn))
+  | _ => none
+
+def parseSCall (s : String) : Option SCall :=
+  match s.splitOn "," with
+  | [] => none
+  | tn :: items => (items.mapM parseSItem).map fun its => { tname := decChars tn, items := its }
+
+/-- are ALL hypotheses of `parse_spelling_from_signatures` satisfied (decidably) by this case? -/
+def sigCovered (ic : Option Ctx) (reg : List Ctx) (toks : List Tok) (sigs schain : String) : Bool :=
+  match (listEnc sigs "+").mapM parseDecl, (listEnc schain "+").mapM parseSCall with
+  | some decls, some ch =>
+    let built := decls.length == reg.length &&
+      (decls.zip reg).all fun (d, c) => match d.ctx? with | .ok c' => decide (c' = c) | .error _ => false
+    let good := decls.all fun d => d.params.all (fun p => pyIdent p.name && !allUnderscores p.name) && !isFlag d.name
+    built && good && sigChainOKb ic decls ch && noSentinelB toks && decide (renderChain decls ch = toks)
+  | _, _ => false
+
+def stepCase (ign init ctxs argv chain : String) (sig : Option (String × String)) : String :=
+  let icE : Except Err (Option Ctx) := if init == "-" then .ok none else (parseCtx init).map some
+  match icE, allOk ((listEnc ctxs "+").map parseCtx) with
+  | .ok ic, .ok reg =>
+    let toks := parseArgvField argv
+    let res := parseArgv ic reg (ign == "1") toks
+    let (cov, thm) :=
+      match resolveChain reg chain with
+      | none => (false, true)
+      | some calls =>
+        let cov := chainOKb ic reg ic calls && noSentinelB toks && decide (calls.flatMap Call.toks = toks)
+        let expect : Except Err PResult :=
+          .ok { contexts := ic.toList ++ calls.map Call.result, unparsed := [], remainder := [] }
+        (cov, !cov || showResult res == showResult expect)
+    let sg := match sig with
+      | some (sigs, schain) => if sigs == "_" || schain == "_" then false else sigCovered ic reg toks sigs schain
+      | none => false
+    -- a case covered by the signature-level theorem must also be accepted by the parser (sanity of the statement)
+    let thm := thm && (!sg || (match res with | .ok r => r.unparsed.isEmpty | .error _ => false))
+    showResult res ++ " # cov=" ++ (if cov then "1" else "0") ++ " thm=" ++ (if thm then "1" else "0") ++
+      " sig=" ++ (if sg then "1" else "0")
+  | .error _, _ => "BADSPEC"
+  | _, .error _ => "BADSPEC"
+
 def step (line : String) : String :=
   match line.splitOn " " with
-  | ["P", ign, init, ctxs, argv, chain] =>
-    let icE : Except Err (Option Ctx) := if init == "-" then .ok none else (parseCtx init).map some
-    match icE, allOk ((listEnc ctxs "+").map parseCtx) with
-    | .ok ic, .ok reg =>
-      let toks := parseArgvField argv
-      let res := parseArgv ic reg (ign == "1") toks
-      let (cov, thm) :=
-        match resolveChain reg chain with
-        | none => (false, true)
-        | some calls =>
-          let cov := chainOKb ic reg ic calls && noSentinelB toks && decide (calls.flatMap Call.toks = toks)
-          let expect : Except Err PResult :=
-            .ok { contexts := ic.toList ++ calls.map Call.result, unparsed := [], remainder := [] }
-          (cov, !cov || showResult res == showResult expect)
-      showResult res ++ " # cov=" ++ (if cov then "1" else "0") ++ " thm=" ++ (if thm then "1" else "0")
-    | .error _, _ => "BADSPEC"
-    | _, .error _ => "BADSPEC"
+  | ["P", ign, init, ctxs, argv, chain] => stepCase ign init ctxs argv chain none
+  | ["P", ign, init, ctxs, argv, chain, sigs, schain] => stepCase ign init ctxs argv chain (some (sigs, schain))
   | _ => "bad-op"
 
 def main : IO Unit := mainLoop step
